@@ -22,9 +22,9 @@ add("C07", "symx", "4/C07", "ordering operators decided for all field values (un
 add("C08", "symx", "4/C08", "from_notes -> iterate round trip and canonical layout for 1-2 (thorough 3) notes with symbolic numerators over concrete denominators and symbolic players 0..2; solver acts mostly as a pruning enumerator of positions")
 add("C09", "symx", "4/C09", "group_notes / count_* equal a declarative two-pass reference on every stream of 3 (thorough 4) notes: kinds and columns by exhaustive case split, beats symbolic with all tie patterns, whole option space; include_note_types over every subset of the five kinds (2 notes)")
 add("C10", "symx", "4/C10", "ungroup(group(s)) restores the stream for every stream of 3 (thorough 4) notes and every option tuple, and for 3 notes over every member of the NoteType enum; hand-built note-inside-hold sequences with symbolic beats")
-add("C11", "symx", "4/C11", "time_at equals the closed-form timeline for every placement of <=3 (thorough 4) events on the tick grid, all BPM values in [1,2000], all lengths/offsets, all 7 tags; monotonicity, offset shift, redundant BPM, bpm_at, independence from one arbitrary earlier lookup on the same engine")
+add("C11", "symx", "4/C11", "time_at equals the closed-form timeline for every placement of <=3 (thorough 4) events on the tick grid, all BPM values in [1,2000], all lengths/offsets, all 7 tags; monotonicity, offset shift, redundant BPM, bpm_at, independence from one arbitrary earlier lookup on the same engine; bpm_at also with IEEE-faithful floats")
 add("C12", "symx", "4/C12", "beat_at/time_at round trip, pause interior, half-tick proximity, warp instants, monotonicity and independence from earlier events, for every placement of <=2 events plus three-warp chains (thorough 3 events) with concrete BPM sets and times on a fine integer grid")
-add("C13", "symx", "4/C13", "hittable equals the warp-union rule for every placement of <=3 (thorough 4) events; time_notes output decided for 1-2 symbolic notes in (player, beat) order x 3 options; hittable also with IEEE-faithful floats (positions pinned where a beat becomes a double)")
+add("C13", "symx", "4/C13", "hittable equals the warp-union rule for every placement of <=3 (thorough 4) events; time_notes output decided for 1-2 symbolic notes in (player, beat) order x 3 options; hittable also with IEEE-faithful floats (positions pinned where a beat becomes a double); head/tail pairs on one lane")
 add("C14", "symx", "4/C14", "Beat construction, snapping (any real x, and x = n/d for 11 concrete denominators with every residue class of n), operator overrides, 3-decimal text round trip for ALL integers, BeatValues/TimingData string round trips with symbolic ticks and 6-place decimals")
 
 add("C01", "xh", "4/C01", "SM serialize->parse round trip decided at parameter level for symbolic keys (literal-derived key set), arbitrary Unicode values <=3 (incl. None), chart fields, extra components and one edit step (13 operations, from states that may already have been serialized); escaping decided by the escapes_real family (real msdparser serializer and lexer on 28 tricky values at 12 sites - exhaustive concrete enumeration, labelled so); auto-detection with the real tokenizer on concrete values")
@@ -32,13 +32,13 @@ add("C02", "xh", "4/C02", "SSC round trip at parameter level with nondeterminist
 add("C03", "xh", "4/C03", "the documented loading rules decided on parameter streams with two symbolic parameters (key spelling, shape, components <=2 chars) against a functional specification; entry-point agreement, format detection (symbolic name suffix as a unit) and strictness on 9 concrete texts")
 add("C04", "xh", "4/C04", "parse -> serialize -> parse -> serialize on parameter streams with a symbolic component (incl. NOTES2 next to NOTES); five corpus files through the real tokenizer; escapes_real family (real msdparser, concrete enumeration) for 'can always be serialized'")
 add("C05", "xh", "4/C05", "encoding choice for every decode-outcome vector and order; mutate over the model filesystem for every output/backup configuration and 7 edit operations with symbolic values: what is written, where, in which encoding; plus a byte-level family on Python's real codecs (11 byte contents x orders x configurations), which is exhaustive concrete enumeration and labelled so")
-add("C06", "xh", "4/C06", "body exceptions of every class at 3 positions, four kinds of save failure, and a fault at the k-th filesystem operation for symbolic k after each of 6 kinds of body edit (incl. in-place chart edits): input intact, backup complete")
+add("C06", "xh", "4/C06", "body exceptions of every class at 3 positions, four kinds of save failure, and a fault at the k-th filesystem operation for symbolic k after each of 7 kinds of body edit (incl. none and in-place chart edits): input intact, backup complete, the original survives somewhere; name clashes refused before anything is written")
 add("C15", "symx", "4/C15", "timing_source / TimingData / displaybpm decided with the emptiness of all present chart timing properties symbolic (2^11), 4 absence patterns, 7 versions, all kinds, 8x8 DISPLAYBPM classes")
 add("C16", "symx", "4/C16", "sm_to_ssc with symbolic signed BPM/stop values and ticks, optional keys, 0..2 charts, 3 template variants; timing (incl. warps) and notes identical on both sides as read by the library; text loads back equal (real tokenizer, concrete)")
-add("C17", "symx", "4/C17", "ssc_to_sm for all 5^5 behaviour mappings (lazy case split), default-ness of every present SSC-only property symbolic, presence patterns, WARPS classes, templates; two-call sequences; sm->ssc->sm round trip; chart values that coincide with simfile-level / template values (mirror family)")
+add("C17", "symx", "4/C17", "ssc_to_sm for all 5^5 behaviour mappings (lazy case split), default-ness of every present SSC-only property symbolic, presence patterns, five WARPS classes (absent, empty, positive / zero / negative lengths), templates; two-call sequences; sm->ssc->sm round trip; chart values that coincide with simfile-level / template values (mirror family)")
 add("C18", "xh", "4/C18", "one inductive step from every pre-state over 4 key roles: 7 (kind, property) cases x 15 operations against a dict model, re-checked after serialization (a read must not change the object); equality sees the mapping (same keys in another order with position-aligned values); SM chart refusals (14 operations)")
-add("C19", "xh", "4/C19", "extension classification for every printable suffix <=4 (unit) and directory/pack discovery over model trees of <=3 entries from representatives (logic), kwargs pass-through (stray text independently per file kind), opendir/openpack agreement")
-add("C20", "xh", "4/C20", "asset patterns: z3 regex equivalence of the presets with the documented predicate for all stems (unbounded) + CrossHair on matches(); lookup logic over model directories x 8 specification classes, incl. names that match two kinds at once; pack banner priority")
+add("C19", "xh", "4/C19", "extension classification for every printable suffix <=4 (unit) and directory/pack discovery over model trees of <=3 entries from representatives (logic), kwargs pass-through (stray text independently per file kind), opendir/openpack agreement; conformance scenarios model vs MemoryFS vs native (a deviation of the native layer alone is a violation)")
+add("C20", "xh", "4/C20", "asset patterns: z3 regex equivalence of the presets with the documented predicate for all stems (unbounded) + CrossHair on matches(); lookup logic over model directories x 8 specification classes, incl. names that match two kinds at once and dot-less names that spell an extension; pack banner priority")
 
 def main():
     checks = []
